@@ -33,6 +33,7 @@ def correspondence(ctx):
     for s_ in mark_structures(ctx):
         for prof_ in ('um', 'up'):
             cases.append(f'prof|{prof_}|enforce|f|b|{hexs(s_)}|')
+    cases += fuzz_cases(ctx, {0, 1, 5})      # coverage-guided search of the tree under check (only when the source changed / thorough)
     res = run_cases(cases, ctx.work)
     known = known_bidi(ctx)
 
